@@ -379,6 +379,7 @@ def math_env() -> Dict[str, Callable]:
     env["ilogb"] = _libm_fn("ilogb", 1, [ctypes.c_double], ctypes.c_int)
     env["nexttoward"] = env["nextafter"]  # long double second argument; equal for doubles
     env["abs"] = abs
+    env["nan"] = lambda tag="": float("nan")
     return env
 
 
